@@ -13,6 +13,7 @@ import (
 	"hash/crc32"
 	"os"
 	"strings"
+	"time"
 
 	tboc "github.com/tonkeeper/tongo/boc"
 
@@ -30,6 +31,8 @@ const (
 	// a case that has used this much process CPU without returning is reported by the worker's
 	// watchdog as a loop (three times the bound that is a violation anyway once the call returns)
 	caseCPULimit = 60.0
+	// CPU seconds one job (child process) may spend in Cell.ToString before it stops printing
+	toStringJobBudget = 45.0
 )
 
 // ---------------------------------------------------------------- corpus
@@ -639,7 +642,15 @@ func observe(w mon.Sink, wk *mon.Worker, class, id string, in []byte, desc strin
 				// variants, a hasher shared by all roots, JSON, the text forms, the bit printer)
 				ops = []string{"Hash", "ToBoc", "ToString", "Hash256+HashString", "ToBocCustom(idx,crc,cache)", "ToBocCustom(idx)", "ToBocCustomWithHasher(shared)", "MarshalJSON+ToBocBase64", "BinaryString+ToFiftHex"}
 			}
-			if printCost(root) > 200_000_000 {
+			if printCost(root) <= 200_000_000 && toStringCPU > toStringJobBudget {
+				// printing is slow but terminating on this job's seed (the text is copied once per level): after
+				// toStringJobBudget CPU seconds of printing in one job the remaining roots of the job are hashed and
+				// re-serialised but no longer printed, otherwise a chunk of thousands of substitutions of one such
+				// seed runs into the child's wall-clock watchdog. A single call that does not return is still ended
+				// by the per-case CPU watchdog.
+				ops = append(ops[:2:2], ops[3:]...)
+				w.Count("tostring_skipped_job_cpu_budget", 1)
+			} else if printCost(root) > 200_000_000 {
 				// ToString prints the unfolded tree (its own budget: 65536 cells), copying the text once per level
 				// of depth. On deep trees with fat cells that is slow but terminating, and a CPU bound there
 				// would be our demand, not the statement's: such roots are skipped by an estimate of the
@@ -683,6 +694,9 @@ func observe(w mon.Sink, wk *mon.Worker, class, id string, in []byte, desc strin
 					}
 				})
 				cpu := mon.CPUSeconds() - t0
+				if op == "ToString" {
+					toStringCPU += cpu
+				}
 				if p != nil {
 					x := wit()
 					x["panic"], x["stack"], x["op"] = p.Value, mon.Trunc(p.Stack, 1500), op
@@ -1015,6 +1029,9 @@ func widthCase(seed uint64, idx int) ([]byte, string) {
 	return r.bytes(), fmt.Sprintf("widths size=%d off=%d shape=%d header=%d", r.size, r.off, d[2], d[3])
 }
 
+// toStringCPU: CPU seconds this process has spent in Cell.ToString (one job per process).
+var toStringCPU float64
+
 // ---------------------------------------------------------------- jobs
 
 type job struct {
@@ -1212,7 +1229,7 @@ func main() {
 	add("random", 0, R.N(6000, 300000), 20000)
 	R.Extra("jobs", len(jobs))
 	R.Extra("corpus", len(corp))
-	R.RunJobs(jobs, mon.ChildOpts{Parallel: 16, UlimitKiB: 6 << 20, Env: []string{"GOMAXPROCS=2"}}, func(c mon.Crash) {
+	R.RunJobs(jobs, mon.ChildOpts{Parallel: 16, UlimitKiB: 6 << 20, Timeout: childTimeout(), Env: []string{"GOMAXPROCS=2"}}, func(c mon.Crash) {
 		if c.CPUExceeded > 0 {
 			cls := c.Case
 			if i := strings.IndexByte(cls, '/'); i > 0 {
@@ -1222,6 +1239,7 @@ func main() {
 			return
 		}
 		if c.TimedOut {
+			fmt.Fprintf(os.Stderr, "child watchdog: job %d case %q input %d bytes\n%s\n", c.Job, c.Case, len(c.Input), mon.Trunc(c.Stderr, 6000))
 			R.Inconclusive("child watchdog (15 min) fired")
 			return
 		}
@@ -1229,4 +1247,17 @@ func main() {
 		R.Violation("fatal@"+cls, map[string]any{"case": c.Case, "input_hex": mon.HexTrunc(c.Input, 6000), "len": len(c.Input), "exit": c.ExitInfo, "stderr": mon.Trunc(c.Stderr, 2500)})
 	})
 	os.Exit(R.Finish())
+}
+
+// childTimeout: the wall-clock watchdog per child (inconclusive when it fires); VERIF_C07_CHILD_TIMEOUT_S
+// shortens it for debugging.
+func childTimeout() time.Duration {
+	if v := os.Getenv("VERIF_C07_CHILD_TIMEOUT_S"); v != "" {
+		var n int
+		fmt.Sscanf(v, "%d", &n)
+		if n > 0 {
+			return time.Duration(n) * time.Second
+		}
+	}
+	return 15 * time.Minute
 }
